@@ -332,7 +332,7 @@ fn main() {
                 }
             });
             sched::set_num_threads(1);
-            if sched::parallel_calls() == before {
+            if sched::parallel_calls() == before && !cname.contains("-> error") {
                 out.machinery_errors.push(format!("{case}: the parallel path was not taken under the model (no parallel drive observed)"));
             }
             schedules += st.schedules;
